@@ -9,7 +9,7 @@ export CARGO_NET_OFFLINE=true
 cd $WT || exit 9
 exec > $LOG 2>&1
 echo "== reset worktree to HEAD and apply patch"
-git stash -u -q 2>/dev/null; git checkout -q . ; git clean -fdq -e target
+git checkout -q . ; git clean -fdq -e target
 git apply $OUT/patch.diff || { echo "PATCH-DOES-NOT-APPLY"; exit 1; }
 echo "== baseline suite with patch (no demo)"
 cargo test --workspace --no-fail-fast --offline 2>&1 | grep -E "^test result|FAILED|failed|error(\[|:)" | tee $OUT/suite_summary.txt
